@@ -45,6 +45,12 @@ func genCase(t *rapid.T) Case {
 			total += len(blk)
 		}
 	}
+	if rapid.IntRange(0, 2).Draw(t, "earlier-connections?") == 0 {
+		c.Prelude = rapid.SliceOfN(rapid.SampledFrom([]string{"served", "startup-abort", "ssl-abort", "ssl-garbage", "tls-no-startup"}), 1, 4).Draw(t, "prelude")
+		if rapid.Bool().Draw(t, "tls-configured") {
+			c.Cfg.TLS = "cert"
+		}
+	}
 	c.Staller = rapid.SampledFrom([]string{"", "", "oversized-partial", "message-partial"}).Draw(t, "staller")
 	if rapid.Bool().Draw(t, "owned-schedule") {
 		for len(c.Schedule) < total {
